@@ -1756,3 +1756,8 @@ mod tests {
 
 
 }
+
+// Verification hook (add-only): compiled only under `cargo kani` or `--cfg heathcliff_verif`.
+#[cfg(any(kani, heathcliff_verif))]
+#[path = "/verif/incrate/util_rns_v.rs"]
+pub(crate) mod verif_v;
